@@ -103,6 +103,7 @@ def run(ctx):
              ("fixed", seed0 + 2 * n, m, {"VRT_STICK": "0"}), ("set", seed0 + 2 * n, m, {"VRT_STICK": "0"}),
              # weak-memory pass (oracle + HB race monitor only: stale loads are not SC-replayable)
              ("fixed", seed0 + 3 * n, m, {"VRT_MEM": "view"}), ("set", seed0 + 3 * n, m, {"VRT_MEM": "view"})]
+    base_bad = len(ctx.failing) + len(ctx.broken)   # proof / translator breakage found before the runs
     for mode, s0, cnt, env in plan:
         lockstep = env.get("VRT_MEM") != "view"
         runs = ctx.econc(exe, drv if lockstep else None, [mode], s0, cnt, env=dict(env, VRT_STEP_LIMIT="250000"))
@@ -153,9 +154,9 @@ def run(ctx):
                 ctx.broke("correspondence", "E-CONC lock-step c03 %s seed=%d" % (tag, r["seed"]), "%s\n%s" % (r["replay"], text))
             if len(samples) < 1 and mode == "fixed" and "slot-cas-lost-busy" in feats:
                 samples.append([l for l in r["lines"] if " ld " not in l][:60])
-            if len(ctx.failing) + len(ctx.broken) > 8:
+            if len(ctx.failing) + len(ctx.broken) - base_bad > 8:
                 break
-        if len(ctx.failing) + len(ctx.broken) > 8:
+        if len(ctx.failing) + len(ctx.broken) - base_bad > 8:
             break
     ctx.cov["distribution"] = dist
     ctx.cov["distinct_nontrivial"] = len(distinct)
